@@ -339,6 +339,8 @@ def run(prog, chk):
     delimiter_agreement(prog, chk)
     r5 = chk.rule("R5-monotone-accumulators", ACC_DESC, floor=3)
     accumulator_rule(prog, r5)
+    histogram_rule(prog, chk)
+    terminator_count_rule(prog, chk)
     r7 = chk.rule("R7-unquoting-refuses-the-empty-string", "cif_value_set_quoted(NOT_QUOTED): the store that marks a character value "
                   "unquoted is reached only where the first character of its text was found non-zero (an empty string has no "
                   "whitespace-delimited form)", primary=False, floor=1)
@@ -543,3 +545,190 @@ def accumulator_rule(prog, rule):
                            "again: what was found on an earlier line is forgotten" % (v, fld, kind, bad.get("l")))
         else:
             rule.ok(key, "%d update(s), all monotone (%s)" % (len(stores), kind))
+
+
+def histogram_rule(prog, chk):
+    """R8: the character histogram of cif_analyze_string.  Every slot the decision cascade reads must count exactly the
+    occurrences of that code unit: the index expression of the counting store, evaluated for every UTF-16 code unit,
+    stays inside the array and maps no other code unit onto a slot that is read."""
+    from ..chareval import _ev
+    r8 = chk.rule("R8-histogram-slots-exact", "cif_analyze_string: the index under which a code unit is counted, evaluated for "
+                  "every UTF-16 code unit 1..0xFFFF, lies inside the count array and equals a slot the analysis later reads "
+                  "only for that very code unit (characters beyond the table share a slot nobody reads)", floor=1)
+    fn = prog.fn("cif_analyze_string")
+    arrays = {}
+    for (b, i, r, n) in fn.eval_sites("asg"):
+        lhs = strip(n.get("lhs"))
+        if lhs.get("k") == "index" and n.get("op") in ("+=", "="):
+            base = path(strip(lhs.get("base")))
+            if base and const(lhs.get("idx")) is None:
+                arrays.setdefault(base, []).append((n, lhs))
+    for (b, i, r, n) in fn.eval_sites("un"):
+        if n.get("op") in ("pre++", "post++"):
+            lhs = strip(n.get("e"))
+            if lhs.get("k") == "index" and const(lhs.get("idx")) is None:
+                base = path(strip(lhs.get("base")))
+                if base:
+                    arrays.setdefault(base, []).append((n, lhs))
+    if not arrays:
+        raise Broken("cif_analyze_string: no counting store into an array indexed by the character found")
+    for base, stores in sorted(arrays.items()):
+        # the slots read: subscripts of the same array with a constant index, anywhere in the function
+        reads = {}
+        for (b, i, r, n) in fn.eval_sites("index"):
+            if path(strip(n.get("base"))) == base:
+                c = const(n.get("idx"))
+                if c is not None:
+                    reads.setdefault(c, n.get("l"))
+        if not reads:
+            continue
+        size = array_size(fn, base)
+        for (n, lhs) in stores:
+            idx = lhs.get("idx")
+            vars_ = sorted({path(x) for x in walk(idx) if isinstance(x, dict) and x.get("k") == "ref" and path(x)})
+            key = "%s[...]@L%s" % (base, n.get("l"))
+            if len(vars_) != 1:
+                r8.info(key, "index mentions %s: not a function of one character variable" % vars_)
+                continue
+            cvar = vars_[0]
+            pre = None          # `slot = f(ch); counts[slot] += 1`: evaluate the local's single definition first
+            if not _is_uchar(fn, cvar):
+                from ..writerrules import _defs_of
+                defs = _defs_of(fn, cvar)
+                dv = sorted({path(x) for d in defs for x in walk(d) if isinstance(x, dict) and x.get("k") == "ref" and path(x)})
+                if len(defs) != 1 or len(dv) != 1 or not _is_uchar(fn, dv[0]):
+                    r8.info(key, "index variable %s is not the character and has no single definition from it" % cvar)
+                    continue
+                pre = (dv[0], defs[0])
+            bad = None
+            for ch in range(1, 0x10000):
+                if pre:
+                    v0 = _ev(pre[1], {pre[0]: ch}, 2)
+                    v = None if v0 is None else _ev(idx, {cvar: v0}, 2)
+                else:
+                    v = _ev(idx, {cvar: ch}, 2)
+                if v is None:
+                    bad = ("unknown", ch, None)
+                    break
+                if v < 0 or (size is not None and v >= size):
+                    bad = ("outside", ch, v)
+                    break
+                if v in reads and v != ch:
+                    bad = ("alias", ch, v)
+                    break
+            if bad is None:
+                r8.ok(key, "index %s: 65535 code units evaluated, %d slots read (%s), array size %s"
+                      % (show(idx), len(reads), ",".join(str(x) for x in sorted(reads)), size))
+            elif bad[0] == "unknown":
+                r8.info(key, "index %s cannot be evaluated for U+%04X: no verdict" % (show(idx), bad[1]))
+            elif bad[0] == "outside":
+                r8.violation(fn.file, fn.name, n.get("l"), "histogram-index:" + base,
+                             "code unit U+%04X is counted in slot %d, outside %s[%s]" % (bad[1], bad[2], base, size))
+            else:
+                r8.violation(fn.file, fn.name, n.get("l"), "histogram-index:" + base,
+                             "code unit U+%04X is counted in slot %d, which the analysis reads (line %s) as the number of "
+                             "U+%04X characters" % (bad[1], bad[2], reads[bad[2]], bad[2]))
+
+
+def _is_uchar(fn, name):
+    for v in list(fn.locals) + list(fn.params):
+        if v.get("name") == name:
+            return v.get("t", "").replace("const ", "").strip() in ("UChar", "uint16_t", "char16_t", "unsigned short")
+    return False
+
+
+def array_size(fn, base):
+    for v in fn.locals:
+        if v.get("name") == base:
+            m = re.search(r"\[(\d+)\]", v.get("t", ""))
+            if m:
+                return int(m.group(1))
+    return None
+
+
+def _additive_terms(e, sign=1, out=None):
+    """flatten a tree of + and - into [(sign, term)]"""
+    if out is None:
+        out = []
+    e = strip(e)
+    if isinstance(e, dict) and e.get("k") == "bin" and e.get("op") in ("+", "-"):
+        _additive_terms(e.get("lhs"), sign, out)
+        _additive_terms(e.get("rhs"), sign if e["op"] == "+" else -sign, out)
+    else:
+        out.append((sign, e))
+    return out
+
+
+def terminator_count_rule(prog, chk):
+    """R9: cif_analyze_string counts every code unit in the histogram before it looks at it, so a CR LF pair adds one to the
+    CR slot and one to the LF slot although it is one line terminator; the pairs are counted separately (a counter
+    incremented where the character after a CR is found to be LF).  Every expression that adds the two slots up to a number
+    of line terminators must therefore subtract that counter - the number of lines does; a sum without the correction takes
+    a leading CR LF for two terminators."""
+    r9 = chk.rule("R9-terminator-count-subtracts-pairs", "cif_analyze_string: every sum of the CR and LF histogram slots subtracts "
+                  "the counter of CR LF pairs (a pair is counted in both slots but is one line terminator)", floor=2)
+    fn = prog.fn("cif_analyze_string")
+    NL, CR = 10, 13
+
+    def is_nl(cnd):
+        t = cfgq.cmp_test(cnd, lambda e: True)
+        if t and t[1] == NL and t[0] in ("==", "!="):
+            return "true" if t[0] == "==" else "false"
+        return None
+    edges = cfgq.guard_edges(fn, is_nl)
+    cr_labels = [b.id for b in fn.blocks.values() if b.label and b.label.get("k") == "case" and b.label.get("v") == CR]
+    pair_counters = set()
+    if edges and cr_labels:
+        heads = {b.id for b in fn.blocks.values() if b.term and b.term.get("k") == "SwitchStmt"}
+        in_cr_arm = cfgq.reach(fn, cr_labels, barrier_blocks=heads)
+        incs = [(b, path(strip(n.get("lhs")))) for (b, i, r, n) in fn.eval_sites("asg")
+                if n.get("op") == "+=" and const(n.get("rhs")) == 1]
+        incs += [(b, path(strip(n.get("e")))) for (b, i, r, n) in fn.eval_sites("un") if n.get("op") in ("pre++", "post++")]
+        for b, v in incs:
+            if v and "[" not in v and b.id in in_cr_arm and cfgq.must_pass_edge(fn, b.id, [e for e in edges if e[0] in in_cr_arm]):
+                pair_counters.add(v)
+    if not pair_counters:
+        raise Broken("cif_analyze_string: no counter of CR LF pairs (incremented under `next character == LF` in the CR arm) found")
+
+    def slot(t):
+        t = strip(t)
+        if isinstance(t, dict) and t.get("k") == "index":
+            return const(t.get("idx"))
+        return None
+    seen = set()
+
+    def visit(e, parent_additive):
+        e0 = e
+        e = strip(e) if isinstance(e, dict) else e
+        if not isinstance(e, dict):
+            return
+        additive = e.get("k") == "bin" and e.get("op") in ("+", "-")
+        if additive and not parent_additive and e.get("id") not in seen:
+            seen.add(e.get("id"))
+            terms = _additive_terms(e)
+            slots = {slot(t) for sg, t in terms if sg > 0}
+            if NL in slots and CR in slots:
+                subtracted = {path(strip(t)) for sg, t in terms if sg < 0}
+                key = "L%s:%s" % (e.get("l"), show(e)[:60])
+                missing = sorted(pair_counters - subtracted)
+                if missing:
+                    r9.violation(fn.file, fn.name, e.get("l"), "terminator-sum-without-pairs:L%s" % e.get("l"),
+                                 "`%s` adds the CR and LF slots without subtracting %s: a CR LF pair counts as two line "
+                                 "terminators here, so a string whose first terminator is CR LF is not recognised as being at its "
+                                 "first line end" % (show(e)[:80], ", ".join(missing)))
+                else:
+                    r9.ok(key, "subtracts %s" % ", ".join(sorted(pair_counters)))
+        for k, v in e.items():
+            if k in ("ms",):
+                continue
+            if isinstance(v, dict):
+                visit(v, additive)
+            elif isinstance(v, list):
+                for x in v:
+                    if isinstance(x, dict):
+                        visit(x, additive)
+    for b in fn.blocks.values():
+        for r in b.roots:
+            visit(r, False)
+        if b.term and isinstance(b.term.get("full"), dict):
+            visit(b.term["full"], False)
